@@ -89,6 +89,12 @@ RULE += (' Large-kernel stream: _ellipse_kernel at (181,181), (182,182), (250,25
          '(1000,33), (33,1000), (2047,17), circle_kernel with radii 250 / 0.25 km / 820 ft / 0.2 miles / random ft, km, miles on unit, 0.3048, '
          '2, 30 and anisotropic (0.5 x 8, 1 x 25) cells, annuli with outer half sizes 300..500 — each compared cell-for-cell with a mask built '
          'from Python-integer arithmetic (isqrt per row).')
+RULE += (' Theme streams: NumPy-scalar arguments (float64/int64 bit-for-bit, float32/int32/int16/uint8 with precision-aware oracle), interleaved '
+         'argument types, 2**-30..2**-120 magnitudes, radii equal to and one ulp around whole multiples of the cell size with float / np.float64 / '
+         'np.float32 / int cell sizes, kernel call sequences (repeat, caller edits the returned array, other parameters in between), radius < cell, '
+         'calc_cellsize on F / strided / read-only / dask-chunked rasters, strided and reversed coordinate views, lat/lon dims, large / tiny / '
+         'negative / fractional spacing, derived rasters (copy, strided slice, assign_coords, astype, reversed) judged on their own attrs and '
+         'coordinates, repeated calls, attrs and coordinates unchanged, 1x1 / 1xN / Nx1 with a res attribute.')
 LEVEL_NOTE = ('Correspondence with the extracted model at large kernel sizes is limited to 200000 cells per kernel (cost); beyond that the '
               'exact-integer oracle is the only check. Trusted: Coq kernel, extraction incl. ExtrOCamlFloats, OCaml libm and float parsing, the harness; NumPy linspace/pad '
               'semantics as modelled.')
@@ -1505,6 +1511,16 @@ def replay_case(ctx, case):
     elif fam == 'distance-string':
         default_unit, units_tbl = read_units(os.environ.get('VERIF_REPO', '/repo'))
         check_dist(ctx, conv, case['string'], case.get('tag', 'replay'), units_tbl, default_unit, lines, cmp)
+    elif fam == 'scalar-types' and case.get('metric') in ('euclidean', 'manhattan'):
+        T = getattr(np, case['type'])
+        A, B, C = [tuple(T(v) for v in case[k]) for k in 'ABC']
+        f = prox.euclidean_distance if case['metric'] == 'euclidean' else prox.manhattan_distance
+        rel = {'float32': 1e-5}.get(case['type'], 1e-12)
+        w = lowprec_metric_oracle(case['metric'], f, A, B, C, rel)
+        if w:
+            ctx.violation('oracle', w, case, key=KEY_UNSIGNED if (case['type'].startswith('uint') and case['metric'] == 'manhattan' and '+19' in w) else None)
+    elif fam in ('scalar-types', 'interleaved-signatures', 'circle-ulp', 'kernel-sequence', 'cellsize-theme'):
+        run_themes(ctx, prox, conv, lines, cmp)          # the (cheap) theme streams as a whole
     elif fam == 'large-ellipse':
         check_large_ellipse(ctx, conv, case, lines, cmp)
     elif fam == 'large-circle':
